@@ -1,2 +1,64 @@
-//! harnesses mounted into the crate (see DESIGN.md 3.1)
+//! C17: the real striped-atomics metrics implementation. Child of `crate::metrics`.
 #![allow(dead_code, unused_imports)]
+use super::*;
+use crate::verif_nd::{self as nd, harness, vassert, vcover};
+
+#[cfg(kani)]
+use crate::verif_env::stubs;
+
+fn any_type() -> MetricType {
+    METRIC_TYPES_ARRAY[nd::any_usize_in(0, NUMS_OF_METRIC_TYPE - 1)]
+}
+
+harness! {
+    [kani::unwind(12),
+     kani::stub(std::sync::Arc::drop_slow, stubs::arc_drop_slow)]
+    fn c17_metrics_stripe_index() {
+        // the stripe a counter update lands on is always inside the 256-slot array, for every hash
+        let h = nd::any_u64();
+        let idx = ((h % 25) * 10) as usize;
+        vassert!(idx < SIZE_FOR_EACH_TYPE, "stripe index is within the per-type array for every 64-bit hash");
+        vcover!(idx == 240, "last used stripe");
+    }
+}
+
+/// A `MetricsInner` with only `n` of the 256 stripes per type would not be the real type, so the
+/// real constructor is used; the harness then touches two counter types.
+fn metrics_inner_ops() {
+    let m = MetricsInner::new();
+    let t = any_type();
+    let u = any_type();
+    let h = nd::any_u64();
+    let g = nd::any_u64();
+    let d1 = nd::any_u64();
+    let d2 = nd::any_u64();
+    nd::assume(d1 < (1 << 62) && d2 < (1 << 62));
+    vassert!(m.get(&t) == 0 && m.get(&u) == 0, "a fresh metrics object reads zero");
+    m.add(t, h, d1);
+    m.add(u, g, d2);
+    let exp_t = if t == u { d1 + d2 } else { d1 };
+    let exp_u = if t == u { d1 + d2 } else { d2 };
+    vassert!(m.get(&t) == exp_t && m.get(&u) == exp_u, "add(t, hash, delta) raises exactly counter t by delta, whatever stripe the hash selects");
+    if t == MetricType::Hit && u == MetricType::Miss {
+        let r = m.ratio();
+        if d1 == 0 && d2 == 0 {
+            vassert!(r == 0.0, "ratio() is 0 without lookups");
+        } else {
+            vassert!(r == (d1 as f64) / ((d1 + d2) as f64), "ratio() is hits / (hits + misses)");
+        }
+    }
+    m.clear();
+    vassert!(m.get(&t) == 0 && m.get(&u) == 0, "clear() restarts every counter from zero");
+    vcover!(t != u, "two different counters");
+    vcover!(t == u && h % 25 != g % 25, "same counter, different stripes");
+    vcover!(t == MetricType::Hit && u == MetricType::Miss && d1 > 0, "ratio with hits");
+    std::mem::forget(m);
+}
+
+harness! {
+    [kani::unwind(258),
+     kani::stub(std::sync::Arc::drop_slow, stubs::arc_drop_slow)]
+    fn c17_metrics_inner() {
+        metrics_inner_ops();
+    }
+}
